@@ -10,5 +10,6 @@ CONSTANTS
   FnRetNames = {"int", "uint", "void", "S1"}
   Devs = {"CondSameTypeNoConversion", "CompositeIsFirst", "UacKeepsWideEnum", "SizeofSeesBitfield", "ConvertKeepsCompatible", "ArrayQualOnArrayType", "DerefDecayedArrayDropsQual"}
   Emit = TRUE
+  EmitLeafNames = {"int", "uint", "eu", "S1", "void"}
 INVARIANTS Inv_Refines Inv_Reflexive Inv_Emit
 CHECK_DEADLOCK FALSE
